@@ -60,6 +60,15 @@ def cases(rng, quick, gr):
         good = {"int": "1", "float": "1.5", "str": '"s"', "bool": "True"}[ty]
         for hdr in ["[%s, %s]" % (good, v), "(%s, %s)" % (v, good), "%s" % v]:
             yield {"tag": "loop-value", "text": HDR + DECLS + "for %s i in %s\n    Op(i) | 0\n" % (ty, hdr)}
+    # 5b. ranges: the values of a range are integers, so a str loop and (beyond 0:2) a bool loop are refused, and a
+    #     float / complex loop variable is not a mode
+    for ty in ["str", "bool"]:
+        for hdr in ["0:2", "0:3", "1:4", "0:6:2", "2:3"]:
+            yield {"tag": "loop-range-value", "text": HDR + DECLS + "for %s i in %s\n    Op(i) | 0\n" % (ty, hdr)}
+    for ty in ["float", "complex"]:
+        for hdr in ["0:2", "0:3", "1:6:2"]:
+            for body in ["Op(1) | i", "Op | [0, i]", "MeasureX | (i, 1)", "Op(A[i]) | 0"]:
+                yield {"tag": "loop-range-mode", "text": HDR + DECLS + "for %s i in %s\n    %s\n" % (ty, hdr, body)}
     # 6. one fault injected into random valid scripts (undefined name replacing a random NAME-free literal slot)
     n = 250 if quick else 15000
     for i in range(n):
